@@ -393,7 +393,6 @@ func (m *vpC40Model) checkPenalties(t *rapid.T) {
 	}
 }
 
-
 func TestVP_C40_Seq(t *testing.T) {
 	vpC40ProbePreInit()
 	rapid.Check(t, func(t *rapid.T) {
